@@ -110,11 +110,33 @@ func c12(c *Check) {
 	c.WhoMayCall("C12/three-way-write", c.F(agK+"Keeper.SetTokenPair"), "keeper.(Keeper).RegisterCoin", "keeper.(Keeper).AddCoin", "keeper.(Keeper).RegisterERC20", "keeper.(Keeper).ToggleRelay", "keeper.(Keeper).UpdateTokenPairERC20", "x/aggregate.InitGenesis")
 
 	c.Rule("C12/delete-all-indexes", "DeleteTokenPair removes the pair, its contract entry and each of its denominations", 3)
-	c.Spec("C12/delete-all-indexes", Macros{}, FnSpec{Fn: agK + "Keeper.DeleteTokenPair", Effects: []Eff{
-		{Label: "pair", Callee: "keeper.(Keeper).deleteTokenPair", N: 1, Args: map[int]string{2: "aggregate/types.(TokenPair).GetID($2)"}},
-		{Label: "contract", Callee: "keeper.(Keeper).deleteERC20Map", N: 1, Args: map[int]string{2: "go-ethereum/common.HexToAddress($2.ERC20Address)"}},
-		{Label: "denoms", Callee: "keeper.(Keeper).deleteDenomMap", N: 1, Args: map[int]string{2: "$2.Denoms[μ{0}]"}},
-	}})
+	// the three unexported accessors may have been folded into DeleteTokenPair by hand: the raw delete then sits in
+	// DeleteTokenPair itself and is checked there
+	delFn := c.F(agK + "Keeper.DeleteTokenPair")
+	missingAcc := map[string]bool{}
+	for _, d := range []struct{ label, acc, prefix, argWant, rawKey string }{
+		{"pair", "deleteTokenPair", "⟨const:1⟩", "aggregate/types.(TokenPair).GetID($2)", "aggregate/types.(TokenPair).GetID($2)"},
+		{"contract", "deleteERC20Map", "⟨const:2⟩", "go-ethereum/common.HexToAddress($2.ERC20Address)", "go-ethereum/common.(Address).Bytes(go-ethereum/common.HexToAddress($2.ERC20Address))"},
+		{"denoms", "deleteDenomMap", "⟨const:3⟩", "$2.Denoms[μ{0}]", "$2.Denoms[μ{0}]"},
+	} {
+		if c.P.FuncOpt(agK+"Keeper."+d.acc) != nil {
+			c.Spec("C12/delete-all-indexes", Macros{}, FnSpec{Fn: agK + "Keeper.DeleteTokenPair", Effects: []Eff{
+				{Label: d.label, Callee: "keeper.(Keeper)." + d.acc, N: 1, Args: map[int]string{2: d.argWant}}}})
+			continue
+		}
+		missingAcc[d.acc] = true
+		n, okKey := 0, false
+		got := ""
+		for _, w := range c.P.StoreWrites() {
+			if w.Fn == delFn && w.Op == "Delete" && strings.HasPrefix(w.Full(c.P), d.prefix) {
+				n++
+				got = normAddr(w.Key.String())
+				okKey = got == normAddr(d.rawKey)
+			}
+		}
+		c.Req(n == 1 && okKey, "C12/delete-all-indexes", "aggregate/keeper.(Keeper).DeleteTokenPair/effect:"+d.label, delFn.Pos(), "raw delete at "+d.rawKey,
+			fmt.Sprintf("DeleteTokenPair holds %d raw delete(s) in the %s family, key %s (required: one, at %s)", n, d.label, trunc(got), d.rawKey))
+	}
 
 	c.Rule("C12/who-writes-registry", "raw writes to the three registry prefixes happen only inside the accessor functions; accessors are called only from the registration functions, DeleteTokenPair, SetDenomsMap and InitGenesis; DeleteTokenPair only from the update proposal and the self-destruct clean-up of the two conversion entry points", 12)
 	acc := map[string]string{"⟨const:1⟩": "SetTokenPair|deleteTokenPair", "⟨const:2⟩": "SetERC20Map|deleteERC20Map", "⟨const:3⟩": "SetDenomMap|deleteDenomMap"}
@@ -127,6 +149,9 @@ func c12(c *Check) {
 					if strings.HasSuffix(funcName(w.Fn), "keeper.(Keeper)."+f) {
 						ok = true
 					}
+					if missingAcc[f] && w.Op == "Delete" && w.Fn == delFn {
+						ok = true // the delete accessor was folded into DeleteTokenPair
+					}
 				}
 				c.Req(ok, "C12/who-writes-registry", "raw "+w.Op+" "+pre+" in "+funcName(w.Fn), w.Pos, "accessor", "raw registry write outside the accessor functions: "+funcName(w.Fn))
 			}
@@ -137,7 +162,9 @@ func c12(c *Check) {
 	c.WhoMayCall("C12/who-writes-registry", c.F(agK+"Keeper.SetDenomMap"), append(regs, "keeper.(Keeper).SetDenomsMap")...)
 	c.WhoMayCall("C12/who-writes-registry", c.F(agK+"Keeper.SetDenomsMap"), regs...)
 	for _, d := range []string{"deleteTokenPair", "deleteERC20Map", "deleteDenomMap"} {
-		c.WhoMayCall("C12/who-writes-registry", c.F(agK+"Keeper."+d), "keeper.(Keeper).DeleteTokenPair")
+		if !missingAcc[d] {
+			c.WhoMayCall("C12/who-writes-registry", c.F(agK+"Keeper."+d), "keeper.(Keeper).DeleteTokenPair")
+		}
 	}
 	c.WhoMayCall("C12/who-writes-registry", c.F(agK+"Keeper.DeleteTokenPair"), "keeper.(Keeper).UpdateTokenPairERC20", "keeper.(Keeper).ConvertCoin", "keeper.(Keeper).ConvertERC20")
 
